@@ -404,16 +404,17 @@ fn c_int_fields(ctx: &mut Ctx, env: &Env) {
         for hcrc_v in [0i32, 1, -1, 256] {
             for os_v in [3i32, 255, 256 + 7, -1] {
                 for (ei, ex) in extras.iter().enumerate() {
-                    for time_v in [0u64, 0xFFFF_FFFF] {
+                    // (xflags is documented as "not used when writing a gzip file": XFL follows from level and strategy)
+                    for (time_v, xflags_v, level_v) in [(0u64, 0i32, 6i32), (0xFFFF_FFFF, 0, 6), (5, 2, 1), (5, 4, 9), (5, 0xFF, 6), (5, -1, 0), (5, 6, 2)] {
                         ctx.case(
                             "gzhdr-c-int-fields",
-                            || format!("gz_header {{ text: {text_v}, time: {time_v:#x}, os: {os_v}, hcrc: {hcrc_v}, extra: {:?} (bytes, extra_len), name \"n\" }} ; deflate(Z_FINISH) in rooms of 7", extras[ei]),
+                            || format!("level {level_v}, gz_header {{ text: {text_v}, time: {time_v:#x}, xflags: {xflags_v}, os: {os_v}, hcrc: {hcrc_v}, extra: {:?} (bytes, extra_len), name \"n\" }} ; deflate(Z_FINISH) in rooms of 7", extras[ei]),
                             |c| unsafe {
                                 let mut outs: Vec<Vec<u8>> = vec![];
                                 for which in 0..2 {
                                     c.exec();
                                     let mut s = Strm::plain();
-                                    let cfg = DCfg { level: 6, strategy: 0, wbits: 15, mem_level: 8, wrap: Wrap::Gzip };
+                                    let cfg = DCfg { level: level_v, strategy: 0, wbits: 15, mem_level: 8, wrap: Wrap::Gzip };
                                     let r = if which == 0 { deflate_init::<Rs>(&mut s, &cfg) } else { deflate_init::<Ng>(&mut s, &cfg) };
                                     if r != Z_OK {
                                         return Err("init".into());
@@ -423,6 +424,7 @@ fn c_int_fields(ctx: &mut Ctx, env: &Env) {
                                     let mut h = Box::new(zeroed_header());
                                     h.text = text_v;
                                     h.time = time_v as _;
+                                    h.xflags = xflags_v;
                                     h.os = os_v;
                                     h.hcrc = hcrc_v;
                                     if let Some((_, len)) = ex {
@@ -470,7 +472,7 @@ fn c_int_fields(ctx: &mut Ctx, env: &Env) {
                                     hcrc: hcrc_v != 0,
                                     hcrc_val: 0,
                                 };
-                                let cfg = DCfg { level: 6, strategy: 0, wbits: 15, mem_level: 8, wrap: Wrap::Gzip };
+                                let cfg = DCfg { level: level_v, strategy: 0, wbits: 15, mem_level: 8, wrap: Wrap::Gzip };
                                 c05::check_stream(c, &cfg, &body, &outs[0], None, Some(&want))?;
                                 if outs[0] != outs[1] {
                                     return Err(format!("header bytes differ from zlib-ng's for the same gz_header struct: {} vs {}", hex(&outs[0][..outs[0].len().min(24)]), hex(&outs[1][..outs[1].len().min(24)])));
